@@ -279,18 +279,11 @@ def mainIter (m : Option Msg) (s : State) : R :=
     if s.cfg.hold0 ∧ m = some .keepalive ∧ s.kaSeen then onNotify 2 6 s
     else mainTail (mainPre m s)
 
-/-- an iteration of the `_main` loop when `peer.proto` is no longer the connection it reads
-    (`_stop` dropped it, `handle_connection` adopted another one): the read times out, the
-    outbound half runs on the adopted connection, on which nothing was negotiated. -/
-def staleIter (s : State) : R :=
-  let w := (sendIf (fun s => decide (s.refreshQ > 0)) .refresh (fun s => { s with refreshQ := s.refreshQ - 1 }) s)
-    |>.andSend (fun s => (({ s with routesPending := false }, []), true))
-    |>.andSend (sendIf (fun s => s.eorPending) .keepalive (fun s => { s with eorPending := false }))
-  if w.2 then
-    w.1 ⊳ fun (s : State) => match s.teardown with
-      | none => (s, [])
-      | some code => if s.cfg.graceful then onOther s else onNotify 6 code s
-  else w.1 ⊳ onNetErr
+/-- an iteration of the `_main` loop when `peer.proto` is no longer the transport of its session
+    (`_stop` dropped it, `handle_connection` adopted another one): since /repo 3a62d00 the loop
+    notices right after its read (`self.proto is not session_proto`) and raises `Interrupted`:
+    `_reset`, nothing is written on whatever `peer.proto` is now. -/
+def staleIter (s : State) : R := onOther s
 
 /-- the main loop runs (up to) `n` iterations in which no message arrives. -/
 def drainMain : Nat → State → R
@@ -300,7 +293,7 @@ def drainMain : Nat → State → R
     | .mainLoop c =>
       (match s.conn with
        | some k => (if k.id = c then mainIter none s else staleIter s) ⊳ drainMain n
-       | none => (s, []))
+       | none => staleIter s)
     | _ => (s, [])
 
 def sendKa (c : Nat) (s : State) : R :=
@@ -425,7 +418,7 @@ def react (s : State) : Event → R
     | .mainLoop c =>
       (match s.conn with
        | some k => if k.id = c then mainIter none s else staleIter s
-       | none => onOther s)
+       | none => staleIter s)
     | _ => (s, [])
   | .teardown code => ({ s with teardown := some code, restart := true }, [])
   | .reestablish => ({ s with teardown := some 3, restart := true }, [])
